@@ -15,6 +15,7 @@ Tie (K): the Q model of tridisolve is evaluated by the Coq kernel on random dyad
   cannot be recompiled, (c) is whatever binary is present).  Also K for the discrete steps of dpss_windows on the
   implementation's own vectors (set-up, ordering, sign flips, concentration formula, interpolation rescale,
   low_bias selection)."""
+import concurrent.futures
 import importlib.util
 import json
 import re
@@ -691,6 +692,16 @@ def validate_dpss(a, out, stats, dense_limit=1100):
         if nrm > 1e-12:
             fails.append(Fail(key + "interp-unit-norm", "interpolated tapers are not unit-norm: |sum v^2 - 1| = %.3g" % nrm,
                               float(nrm), "<= 1e-12"))
+        try:
+            from scipy.signal import windows as _w
+            ref = np.atleast_2d(_w.dpss(N, NW, K))
+            cs = np.abs((v * ref).sum(axis=1))
+            upd("interp_1-|cos|_to_exact", 1 - cs.min())
+            if cs.min() < 0.5:
+                fails.append(Fail(key + "interp-not-close", "interpolated taper %d does not resemble the exact taper of the same order "
+                                  "(|cos| with scipy.signal.windows.dpss = %.3f)" % (int(np.argmin(cs)), cs.min()), float(cs.min()), ">= 0.5"))
+        except ImportError:
+            pass
         return fails
     G = v @ v.T
     orth = np.abs(G - np.eye(K)).max()
@@ -998,6 +1009,84 @@ def make_lowbias_case(mod, a, label):
     return c
 
 
+# ============================================================================ call history: sibling sequences, purity
+def digest(out):
+    """bit-exact fingerprint of a dpss_windows result"""
+    import hashlib
+    if out["t"] != "ok":
+        return "exc:" + str(out.get("cls"))
+    return hashlib.sha1(np.ascontiguousarray(out["v"]).tobytes() + np.ascontiguousarray(out["lam"]).tobytes()).hexdigest()
+
+
+def gen_sequences(ctx):
+    """option-sibling sequences: the same (N, NW, Kmax) asked for exactly and through interpolation (several interp_from /
+    interp_kind), back to back in one process, in both orders"""
+    rng = ctx.rng
+    seqs = []
+    Ns = [rng.randint(16, 512) for _ in range(ctx.scale(36, 150))] + [1025, 4096] + ([] if ctx.quick else [2049, 3001])
+    for i, N in enumerate(Ns):
+        for _ in range(20):
+            M = max(8, rng.choice([N // 2, N // 3, N // 4, N - 1, (2 * N) // 3]))
+            M2 = max(8, rng.choice([N // 2 + 1, N // 3 + 1, N - 2]))
+            nws = [nw for nw in NWS if all(admissible(x, nw) for x in (N, M, M2))]
+            if nws and M < N and M2 < N and M2 != M:
+                break
+        else:
+            continue
+        nw = rng.choice(nws)
+        K = rng.choice([int(2 * nw), rng.randint(1, int(2 * nw))])
+        k1, k2 = rng.sample(KINDS, 2)
+        E = {"fam": "dpss", "N": N, "NW": nw, "Kmax": K}
+        I = lambda m, kd: dict(E, interp_from=m, interp_kind=kd)
+        if i % 2 == 0:
+            seq = [I(M, k1), dict(E), I(M, k2), dict(E, argform="keywords"), I(M2, k1), dict(E, argform="np-int")]
+        else:
+            seq = [dict(E), I(M, k1), dict(E, argform="float-Kmax"), I(M, k2), I(M2, k2), dict(E)]
+        seqs.append(seq)
+    return seqs
+
+
+FRESH_SCRIPT = r"""
+import sys, json, warnings
+warnings.filterwarnings('ignore')
+repo, label, arg = sys.argv[1], sys.argv[2], json.loads(sys.argv[3])
+sys.path.insert(0, repo)
+import numpy as np
+if label == 'pure-python':
+    import importlib.util, nitime
+    sys.modules['nitime._utils'] = None
+    spec = importlib.util.spec_from_file_location('nitime_utils_purepy_c07', repo + '/nitime/utils.py')
+    mod = importlib.util.module_from_spec(spec); spec.loader.exec_module(mod)
+else:
+    import nitime.utils as mod
+kw = {}
+if arg.get('interp_from') is not None:
+    kw = {'interp_from': arg['interp_from'], 'interp_kind': arg.get('interp_kind', 'linear')}
+try:
+    with np.errstate(all='ignore'):
+        v, lam = mod.dpss_windows(arg['N'], arg['NW'], arg['Kmax'], **kw)
+    import hashlib
+    print('DIGEST ' + hashlib.sha1(np.ascontiguousarray(np.array(v, dtype='d')).tobytes()
+                                   + np.ascontiguousarray(np.array(lam, dtype='d')).tobytes()).hexdigest())
+except Exception as ex:
+    print('DIGEST exc:' + type(ex).__name__)
+"""
+
+
+def fresh_digest(label, a):
+    """the same call made alone in a fresh interpreter (no call history)"""
+    import subprocess
+    env = dict(__import__("os").environ)
+    arg = {k: a.get(k) for k in ("N", "NW", "Kmax", "interp_from", "interp_kind")}
+    try:
+        r = subprocess.run([sys.executable, "-W", "ignore", "-c", FRESH_SCRIPT, str(core.REPO), label, json.dumps(arg)],
+                           capture_output=True, text=True, timeout=300, env=env)
+        m = re.search(r"DIGEST (\S+)", r.stdout)
+        return m.group(1) if m else "no-output:" + (r.stderr or "")[-200:]
+    except subprocess.TimeoutExpired:
+        return "exc:CallTimeout"
+
+
 def corpus():
     p = core.VERIF / "harness" / "corpus" / "C07"
     out = []
@@ -1053,6 +1142,7 @@ def run(ctx):
     kcfg, vcfg = gen_dpss_configs(ctx)
     zero_pivot_witness_cases(ctx, impls, stats, vruns)
     dpss_runs = []
+    unobserved = []
     for a in kcfg:
         if _TIMEOUTS["n"] >= 5:
             ctx.notes.append("dpss_windows timed out repeatedly; remaining K configurations skipped")
@@ -1060,7 +1150,11 @@ def run(ctx):
         for label, mod in impls.modules():
             out = run_dpss(mod, a)
             dpss_runs.append((a, label, out))
-            cases += dpss_k_cases(a, out, label)
+            kc = dpss_k_cases(a, out, label)
+            cases += kc
+            want = "rescale" if a.get("interp_from") is not None else "signs"
+            if out["t"] == "ok" and np.isfinite(out["v"]).all() and not any(c.replay.get("step") == want for c in kc):
+                unobserved.append(dict(a, form=label, observed_calls=len(out["calls"]), observed_interp=len(out["interp"])))
     lb = []
     for a in [x for x in corpus() if x.get("fam") == "lowbias"] + gen_lowbias(ctx):
         for label, mod in impls.modules()[:1] if a.get("ev") is None else impls.modules():
@@ -1127,6 +1221,55 @@ def run(ctx):
                     zp.append([a["N"], a["NW"], label])
                 ctx.report_fail(f, Case("", dict(a, form=label), "", False))
     tm["oracles + numerical validation"] = round(_t.time() - t0, 1)
+    # ---- call history: sibling sequences (every call judged), purity against a fresh interpreter, re-runs at the end
+    t0 = _t.time()
+    history = []                                   # (args, label, digest) of calls whose result is re-checked
+    nseq = 0
+    for seq in gen_sequences(ctx):
+        if _TIMEOUTS["n"] >= 5 or len(ctx.violations) >= 300:
+            break
+        for label, mod in impls.modules():
+            for pos, a in enumerate(seq):
+                out = run_dpss(mod, a)
+                nval += 1
+                for f in validate_dpss(a, out, stats, dense_limit=ctx.scale(520, 1100)):
+                    f.replay = {"entry_point": "nitime.utils.dpss_windows", "form": label,
+                                "after_calls_in_this_process": [dict(x) for x in seq[:pos]]}
+                    ctx.report_fail(f, Case("", dict(a, form=label), "", False))
+                if not out.get("zero_pivot"):
+                    history.append((a, label, digest(out), [dict(x) for x in seq[:pos]]))
+        nseq += 1
+    # (a) a sample of the calls made after siblings, repeated alone in a fresh interpreter: bit-identical
+    sample = [h for h in history if h[3]]
+    ctx.rng.shuffle(sample)
+    sample = sample[:ctx.scale(16, 64)]
+    with concurrent.futures.ThreadPoolExecutor(max_workers=8) as ex:
+        fresh = list(ex.map(lambda h: fresh_digest(h[1], h[0]), sample))
+    npure = 0
+    for (a, label, dg, before), fd in zip(sample, fresh):
+        npure += 1
+        if fd != dg:
+            f = Fail("C07/dpss_windows/history-dependent", "dpss_windows returns a different result after earlier calls in the same "
+                     "process than when called alone in a fresh interpreter (a result must not depend on call history)",
+                     dg, fd, {"entry_point": "nitime.utils.dpss_windows", "form": label, "after_calls_in_this_process": before})
+            ctx.report_fail(f, Case("", dict(a, form=label), "", False))
+    # (b) a sample of earlier calls repeated now, at the end of the run: bit-identical
+    again = list(history)
+    ctx.rng.shuffle(again)
+    for a, label, dg, before in again[:ctx.scale(40, 200)]:
+        out = run_dpss(impls.module(label), a)
+        npure += 1
+        if digest(out) != dg:
+            f = Fail("C07/dpss_windows/history-dependent", "the same dpss_windows call repeated at the end of the run does not return "
+                     "the bit-identical result", dg, digest(out),
+                     {"entry_point": "nitime.utils.dpss_windows", "form": label, "after_calls_in_this_process": before})
+            ctx.report_fail(f, Case("", dict(a, form=label), "", False))
+    ctx.extra["call_history_tests"] = {"sibling_sequences": nseq, "calls_per_sequence": 6,
+                                       "purity_comparisons(fresh interpreter + end-of-run repeats)": npure}
+    tm["sibling sequences + purity"] = round(_t.time() - t0, 1)
+    # observation points: every un-failed direct run must show its inverse iterations, every interpolated run its interp1d calls
+    ctx.obligation("K", "tie:intermediate vectors of dpss_windows observed (tridi_inverse_iteration / interp1d)", not unobserved,
+                   json.dumps(unobserved[:5], default=str))
     ctx.extra["timing_s"] = tm
     ctx.extra["numerical_validation_TESTS_not_proofs"] = {
         "what": "orthonormality <= 1e-8, concentrations in (0,1] (1e-9 rounding slack) and non-increasing, max|S v - lambda v| <= 1e-7 "
